@@ -112,7 +112,7 @@ Lemma img_cell_impl q t f :
   get_cell q f t = cell_impl fb (img q) t f.
 Proof.
   intros Hv Ht Hf Hn. pose proof (valid_is_shape q Hv) as Hs.
-  destruct (implied_facts fb HF1 HT f Hf Hn) as (fd & w & Efd & Ew & Hd & W1 & W2 & W3 & Htot).
+  destruct (implied_facts fb HF1 HT f Hf Hn) as (fd & w & Efd & Ew & Hd & W1 & W2 & Htot).
   pose proof Hs as (_ & R & C & _).
   pose proof (impl_sustain fb HF1 HT f Hf Hn) as Hsu.
   pose proof (proj1 (factor_ok_impl fb HT q f fd w Efd Ew Hsu (R f Hf)) (valid_factor_ok q f fd Hv Efd) t Ht) as Hok.
@@ -121,15 +121,16 @@ Proof.
   - destruct Hok as (Hap & Hl0 & Hacc). rewrite Hap.
     assert (Ew' : window_args q (code_factor fb f fd) (dwin fd w) t
                   = window_args (dec_act fb (img q)) (code_factor fb f fd) (dwin fd w) t).
-    { apply (impl_window_ext fb HF1 HT _ _ f fd w t Hsu W3 Hap Ew). intros d t' Hdd Ht'.
+    { apply (window_ext_su1 fb HF1 HT _ _ f fd w t Hsu Ew). intros d t' Hdd Ht'.
       pose proof (proj1 (Forall_forall _ _) Hd d Hdd) as Hds. cbv beta in Hds.
       destruct (sact_lappl fb HF1 d t' Hds) as [Hda _].
       rewrite (dec_act_cell fb _ t' d ltac:(lia) (f1_act_lt fb HF1 d Hda)).
       symmetry. apply (img_cell_act q t' d Hs ltac:(lia) Hda). }
     rewrite <- Ew'. symmetry. apply (find_only fb HF1 HT); [|exact Hl0|exact Hacc].
-    apply Htot. apply (impl_window_in fb HF1 HT q f fd w t Hsu W3 Hap Ew). intros d t' Hdd Ht'.
-    pose proof (proj1 (Forall_forall _ _) Hd d Hdd) as Hds. cbv beta in Hds.
-    destruct (sact_lappl fb HF1 d t' Hds) as [Hda Hdl]. exact (C t' d ltac:(lia) Hda Hdl).
+    destruct (window_in_su1 fb HF1 HT q f fd w t Hsu Hap Ew W1) as (k & Hk & Hin).
+    { intros d t' Hdd Ht'. pose proof (proj1 (Forall_forall _ _) Hd d Hdd) as Hds. cbv beta in Hds.
+      destruct (sact_lappl fb HF1 d t' Hds) as [Hda Hdl]. exact (C t' d ltac:(lia) Hda Hdl). }
+    exact (Htot k _ Hk Hin).
   - now rewrite Hok.
 Qed.
 
